@@ -81,6 +81,8 @@ Guards ==
        \cup {<<S, {<<>>}>> : S \in Singles \cup {{PredNotNan}}}
   ELSE IF Tier = "c07"     \* C07 slice: every order of lower + upper + finite + predicate
   THEN {<<S \cup {Finite, PredNe}, {<<>>}>> : S \in Pairs} \cup {<<S \cup {Finite}, {<<>>}>> : S \in Pairs}
+       \* and a predicate that NaN FAILS, in every position relative to `finite` (which rule is the first violated one for NaN?)
+       \cup {<<S \cup {Finite, PredNotNan}, {<<>>}>> : S \in Singles \cup {{}}}
   ELSE IF Tier = "quick"
   THEN {<<S, FewSans>> : S \in WithFinite(Pairs)}
        \cup {<<S, AllSans>> : S \in WithFinite(Singles) \cup {{Finite}, {PredNotNan}, {Finite, PredNe}}}
